@@ -1,9 +1,9 @@
 package props
 
 import (
+	"fmt"
 	"github.com/form3tech-oss/f1/v2/internal/trigger/api"
 	"github.com/spf13/pflag"
-	"fmt"
 	"math"
 	"math/big"
 	"math/rand/v2"
